@@ -10,11 +10,14 @@
 (***************************************************************************)
 EXTENDS SqlFlat, Sources, Json
 
-CONSTANTS MaxDepth, SrcSel, EmitPaths, WithAlias     \* WithAlias: explicit alias() moves and the marker search of pipe/pipeable.py check_subquery
+CONSTANTS MaxDepth, SrcSel, EmitPaths, WithAlias, StaleRefs     \* WithAlias: explicit alias() moves and the marker search of pipe/pipeable.py check_subquery
 
 (* al: the most recent explicit alias() not yet shadowed by a SubqueryMarker: <<>> or <<[t |-> table at the alias, ms |-> verbs applied since]>> *)
 (* ck: column kinds as recorded in the Cache; uk: kinds carried by the Col objects the user holds (= kind at creation, never  *)
 (* reset); marked: a SubqueryMarker has been inserted on this path.  t.fk stays the TRUE kind (what SQL's evaluation order sees) *)
+(* StaleRefs = TRUE : the code before fix F16 (verb arguments keep the user's Col objects, so their kinds may be stale);        *)
+(* StaleRefs = FALSE: the code as repaired (preprocess_arg replaces every Col by the current table's column): the kinds an      *)
+(* expression carries are the Cache's.  Only the verbs re-accumulated above a marker at an EARLIER alias keep their old kinds.  *)
 VARIABLES t, q, c, nid, steps, trace, src, reported, al, ck, uk, marked
 vars == <<t, q, c, nid, steps, trace, src, reported, al, ck, uk, marked>>
 
@@ -87,17 +90,18 @@ Step == /\ steps < MaxDepth /\ ~Bad
         /\ LET ms == Moves(t) IN
            \E j \in DOMAIN ms :
               LET m    == ms[j]
-                  need == Rq2(c, t, ck, uk, m)                                   \* first check: the verb as the user wrote it
+                  ek0  == IF StaleRefs THEN uk ELSE ck
+                  need == Rq2(c, t, ck, ek0, m)                                  \* first check: the verb as the user wrote it
                   A    == IF al # <<>> /\ need # "" THEN AboveAlias ELSE [t |-> t, q |-> q, c |-> c]
                   \* Cache rebuilt above a marker at the earlier alias: columns below it are element-wise, the verbs re-applied
                   \* above it still carry the user's Col objects, so the columns they define keep the kind computed from those
-                  ckA  == [x \in Scope(t) |-> IF al # <<>> /\ x \in Scope(al[1].t) THEN "e" ELSE uk[x]]
+                  ckA  == [x \in Scope(t) |-> IF al # <<>> /\ x \in Scope(al[1].t) THEN "e" ELSE ek0[x]]
                   via  == al # <<>> /\ need # "" /\ Rq2(A.c, A.t, ckA, ckA, m) = ""     \* second check: expressions re-pointed to that Cache
                   tin  == IF need = "" THEN t ELSE IF via THEN A.t ELSE AllE(t)
                   qin  == IF need = "" THEN q ELSE IF via THEN A.q ELSE Q0(tin)
                   cin  == IF need = "" THEN c ELSE IF via THEN A.c ELSE Cs0
                   ckin == IF need = "" THEN ck ELSE IF via THEN ckA ELSE AllEk(t)
-                  ekin == IF need = "" THEN uk ELSE ckin                           \* a verb that got a marker is re-pointed to the new Cache
+                  ekin == IF need = "" THEN ek0 ELSE ckin                          \* a verb that got a marker is re-pointed to the new Cache
                   r    == ApplyOn(tin, m, nid)
                   nk   == NewKinds(m, ekin, nid, Scope(t))
               IN IF m.v = "alias"
